@@ -277,19 +277,62 @@ def cmpFlags (op : String) : Option (Bool × Bool × Bool) :=
 /-- `limit op iv` read as a condition on iv: the direction flips, inclusiveness stays -/
 def flipForRight (isNEQ isUp0 : Bool) : Bool := if !isNEQ then !isUp0 else isUp0
 
-/-- what `deriveTripCount` stores once it has found the IV, the limit and the flags
-    (`none` = the loop's TripCount field is left as it was) -/
-def decideTripCount (isNEQ isUp isInc : Bool) (iv : InductionVariable) (limit : SCEV) : Option SCEV :=
+/-- width of the counter's type from its flag word (8, 16, 32; everything else counts as 64) -/
+def ivBits (t : TFlags) : Nat :=
+  match (t / 64) % 8 with
+  | 1 => 8
+  | 2 => 16
+  | 3 => 32
+  | _ => 64
+
+def ivUnsigned (t : TFlags) : Bool := (t / 32) % 2 == 1
+
+/-- smallest and largest value of the counter's type -/
+def ivLo (t : TFlags) : Int := if ivUnsigned t then 0 else -(2 ^ (ivBits t - 1))
+def ivHi (t : TFlags) : Int := if ivUnsigned t then 2 ^ ivBits t - 1 else 2 ^ (ivBits t - 1) - 1
+
+/-- `tripCountMayWrap` (fix "no trip count for a counter that can wrap around before the test
+    fails"): may the counter leave the range of its type before the test fails?  `t` = flag word of
+    the header phi's type. -/
+def tripCountMayWrap (t : TFlags) (isNEQ isUpCounting isInclusive : Bool) (iv : InductionVariable)
+    (limit : SCEV) : Bool :=
+  if !t.isInteger then false else
+  match iv.step.evalNil with
+  | none => false
+  | some stepC =>
+    if isNEQ then
+      match iv.start.evalNil, limit.evalNil with
+      | some startC, some limitC =>
+        (decide (0 < stepC) && decide (limitC < startC)) || (decide (stepC < 0) && decide (startC < limitC))
+      | _, _ => decide (ivBits t < 64)
+    else
+      let d : Int := stepC.natAbs
+      if d == 1 then false else
+      match limit.evalNil with
+      | none => decide (ivBits t < 64)
+      | some limitC =>
+        let over : Int := if isInclusive then d else d - 1
+        if isUpCounting then decide (ivHi t < limitC + over) else decide (limitC - over < ivLo t)
+
+/-- what `deriveTripCount` stores once it has found the IV (`t` = flag word of its phi's type), the
+    limit and the flags (`none` = the loop's TripCount field is left as it was) -/
+def decideTripCount (t : TFlags) (isNEQ isUp isInc : Bool) (iv : InductionVariable) (limit : SCEV) :
+    Option SCEV :=
   match directionCheck isNEQ isUp isInc iv limit with
   | .done tc => some tc
   | .proceed =>
     if !stepSignOk isNEQ isUp iv then some (.unknown none false)
+    else if tripCountMayWrap t isNEQ isUp isInc iv limit then some (.unknown none false)
     else tripCountFormula isNEQ isUp isInc iv limit
 
 /-- `deriveTripCount(loop)` -/
 def deriveTripCount (f : Func) (l : Loop) : Loop :=
   match l.exits with
   | [exitBlock] =>
+    -- fix "no trip count for a loop whose exit test is skipped on some iterations": the exiting
+    -- block has to dominate every back edge
+    if (f.preds l.header).any (fun p => l.contains p && !dominates f exitBlock p) then
+      { l with tripCount := some (.unknown none false) } else
     match (f.blockInstrs exitBlock).getLast? with
     | none => l
     | some ifInstr =>
@@ -321,10 +364,10 @@ def deriveTripCount (f : Func) (l : Loop) : Loop :=
             match v with
             | some (.instr id) =>
               match f.instr? id with
-              | some i => if i.kind == .Phi then l.induction? id else none
+              | some i => if i.kind == .Phi then (l.induction? id).map (fun iv => (iv, i.tf)) else none
               | none => none
             | _ => none
-          let found? : Option (InductionVariable × Option Val × Bool) :=
+          let found? : Option ((InductionVariable × TFlags) × Option Val × Bool) :=
             match findIV (binOp.opVal 0) with
             | some iv => some (iv, binOp.opVal 1, isUp0)
             | none =>
@@ -333,14 +376,14 @@ def deriveTripCount (f : Func) (l : Loop) : Loop :=
               | none => none
           match found? with
           | none => l
-          | some (iv, limit?, isUpCounting) =>
+          | some ((iv, phiTf), limit?, isUpCounting) =>
             if iv.type != .basic then l else
             match limit? with
             | none => l
             | some limit =>
               let (limitSCEV, l) := toSCEV f l limit
               if !limitSCEV.isLoopInvariant f l then l else
-              match decideTripCount isNEQ isUpCounting isInclusive iv limitSCEV with
+              match decideTripCount phiTf isNEQ isUpCounting isInclusive iv limitSCEV with
               | some tc => { l with tripCount := some tc }
               | none => l
   | _ => { l with tripCount := some (.unknown none false) }
